@@ -5,7 +5,8 @@ Spec: {"mdg": <gen.handmdg spec>, "binary": bool, "const_sep": bool, "fresh": bo
        "steps": [{"k": int|None, "seed": int, "form": "keys"|"tuples"|"tuples2d"}, ...],   # k increasing
        "mode": "vtu"|"pvd"|"mdgpvd"|"mixin-pvd"|"mixin-mdgpvd"|"mixin-vtu",
        "times": None|[t per step], "t0": initial time of the mixin run, "dts": [dt per step], "pick": int, "ikeys": "list"|"none"|"str",
-       "subset": [bool per file] | None, "manual": bool}
+       "subset": [bool per file] | None, "manual": bool,
+       "ops": [...]}      # mode "history" only: sequence of operations on ONE Exporter (plus fresh ones), see _history_ops
 All files are written below os.environ['VERIF_SCRATCH'] (gen.grids.scratch_file)."""
 from __future__ import annotations
 
@@ -31,7 +32,13 @@ RULE = (
     "import_state_from_vtu (all or a subset of the files of one step; automatic or manual dimension), "
     "import_from_pvd from write_pvd (times = None / given), import_from_pvd from a per-step md-grid pvd, or "
     "the DataSavingMixin protocol (write_pvd_and_vtu with a TimeManager, then load_data_from_pvd / "
-    "load_data_from_vtu into a fresh exporter and TimeManager). Oracle: for every subdomain and interface "
+    "load_data_from_vtu into a fresh exporter and TimeManager), or - mode 'history' - a generated sequence of 3-8 "
+    "operations on ONE Exporter object mixed with fresh Exporter objects on the same folder: write_vtu with "
+    "explicit step indices that may repeat (the files of that step are overwritten with new data) or "
+    "time-independent (overwrites <name>_<dim>.vtu at every call), write_pvd, and imports through vtu lists, "
+    "md-grid pvd or the plain pvd, interpreted against a reference model of what was written most recently "
+    "under which file name (after every import the restored states must equal it). Times / step indices span "
+    "magnitudes (late start up to 1e8 with increments ~1, indices >= 1e5, increments below 1e-6). Oracle: for every subdomain and interface "
     "the array at time-step index 0 equals the array written at that step cell by cell (exact for binary, "
     "relative 2e-11 for ascii which stores 12 digits), values not addressed by the imported files stay "
     "untouched, the returned time index is the exported step index; mixin: time, dt and the cut history "
@@ -45,7 +52,8 @@ LEVEL_TEXT = ("Exploration: hundreds of generated md-grids per run mixing cell s
               "(vtu list, pvd, md-grid pvd, model mixin with time information); restored arrays are compared "
               "cell by cell with what was written.")
 LEVEL_NOTE = ("Grids are small (<= ~100 cells per subdomain). Point data, appending to an existing pvd and "
-              "grids that change between export and import are not exercised. File names follow the exporter's "
+              "grids that change between export and import are not exercised. Histories have at most 8 operations "
+              "and every write exports all fields; write_pvd in a history is issued by the one long-lived exporter only. File names follow the exporter's "
               "convention. Finds violations, does not prove absence.")
 DESIGN_REF = "DESIGN.md section 4, C38"
 ASSUMPTIONS = [
@@ -63,16 +71,58 @@ REQUIRED = {
     "kind-poly": 0.08, "kind-polyx": 0.04, "kind-tri": 0.04, "kind-tet": 0.02, "kind-cart": 0.1,
     "vector-data": 0.3, "multi-step": 0.3, "form-keys": 0.15, "form-tuples": 0.15, "form-tuples2d": 0.08,
     "ikeys-none": 0.1, "ikeys-list": 0.2, "mixed-shapes-in-dim": 0.25, "times-large-offset": 0.02,
+    "history": 0.08, "overwrite-then-import": 0.04, "same-exporter-reimport": 0.03, "history-fresh-exporter": 0.02,
 }
 
 NAMES = ["p", "u", "pressure", "flux_x", "T"]
 FNAMES = ["data", "state", "run_a"]
 OFFSETS = [1.0e5, 2.5e5, 1.0e6, 1.0e7, 1.0e8]
 SMALL_DTS = [1.0, 1.0, 0.5, 0.25, 3.0, 0.05]
-MODES = ["vtu", "pvd", "mdgpvd", "mixin-pvd", "vtu", "mixin-mdgpvd", "pvd", "mixin-vtu", "mdgpvd"]
+MODES = ["vtu", "history", "pvd", "mdgpvd", "history", "mixin-pvd", "vtu", "history", "mixin-mdgpvd", "pvd", "mixin-vtu",
+         "mdgpvd"]
 
 
 # ----------------------------------------------------------------------------- strategy
+@st.composite
+def _history_ops(draw):
+    """Export / import history through one Exporter object ("same") and fresh Exporter objects on the same
+    folder: {"op": "write", "k": step index | None, "seed", "form", "who"} (a repeated k overwrites the files of
+    that step; k None is the time-independent export that overwrites <name>_<dim>.vtu at every call),
+    {"op": "pvd"} (write_pvd of the one exporter), {"op": "import", "how": "vtu"|"mdgpvd"|"pvd", "k", "who"}.
+    Only steps written before are imported; "pvd" only after a pvd was written."""
+    static = draw(st.sampled_from([False, False, True]))
+    pool = [None] if static else draw(st.lists(st.sampled_from([0, 1, 2, 9, 10, 37]), min_size=1, max_size=3,
+                                               unique=True))
+    ops, written, have_pvd = [], [], False
+    n = draw(st.integers(3, 8))
+    template = draw(st.sampled_from(["free", "free", "reimport"]))
+    for i in range(n):
+        if template == "reimport" and i < 4:
+            kind = ["write", "import", "write", "import"][i]
+        elif i == 0:
+            kind = "write"
+        else:
+            kind = draw(st.sampled_from(["import", "write", "pvd", "import", "write"]))
+        if kind == "pvd" and (static or not any(o["op"] == "write" and o["who"] == "same" for o in ops)):
+            kind = "write"
+        if kind == "write":
+            k = pool[0] if (template == "reimport" and i < 4) else draw(st.sampled_from(pool))
+            who = "same" if (template == "reimport" and i < 4) else draw(st.sampled_from(["same", "same", "fresh"]))
+            ops.append({"op": "write", "k": k, "seed": draw(st.integers(0, 2**31 - 1)),
+                        "form": draw(st.sampled_from(["keys", "tuples", "tuples2d"])), "who": who})
+            if k not in written:
+                written.append(k)
+        elif kind == "pvd":
+            ops.append({"op": "pvd"})
+            have_pvd = True
+        else:
+            hows = ["vtu"] if static else (["pvd", "vtu", "mdgpvd", "pvd"] if have_pvd else ["vtu", "mdgpvd"])
+            k = pool[0] if (template == "reimport" and i < 4) else draw(st.sampled_from(written))
+            who = "same" if (template == "reimport" and i < 4) else draw(st.sampled_from(["same", "same", "same", "fresh"]))
+            ops.append({"op": "import", "how": draw(st.sampled_from(hows)), "k": k, "who": who})
+    return ops
+
+
 @st.composite
 def _spec(draw, tier):
     m = draw(hand_mdg_spec())
@@ -96,6 +146,7 @@ def _spec(draw, tier):
     s["keys"] = keys
     mode = draw(st.sampled_from(MODES))
     s["mode"] = mode
+    s["ops"] = draw(_history_ops()) if mode == "history" else []
     n = draw(st.sampled_from([1, 2, 2, 3]))
     if mode.startswith("mixin"):
         ks = list(range(n))
@@ -356,6 +407,93 @@ KNOWN = {
 }
 
 
+# ----------------------------------------------------------------------------- histories
+def _history(pp, spec, mdg, ents, folder, labels, written, as_input):
+    """Interpret spec["ops"] against a reference model of what is on disk under which name."""
+    keys, fname = spec["keys"], spec["fname"]
+    labels.add("history")
+
+    def new_exporter():
+        return pp.Exporter(mdg, fname, folder, binary=spec["binary"], export_constants_separately=spec["const_sep"])
+
+    same = new_exporter()
+    disk = {}          # step index -> values written most recently under the file names of that step
+    n_writes = {}      # step index -> number of writes so far
+    seen_by_same = {}  # step index -> number of writes at the time the one exporter last imported that step
+    pvd_steps = None   # step indices listed in <name>.pvd (those exported by the one exporter when it wrote it)
+    same_steps = []
+    nontrivial = False
+    for pos, op in enumerate(spec["ops"]):
+        if op["op"] == "write":
+            exp = same if op["who"] == "same" else new_exporter()
+            vals = written(op)
+            exp.write_vtu(as_input(op, vals), time_step=op["k"])
+            disk[op["k"]] = vals
+            n_writes[op["k"]] = n_writes.get(op["k"], 0) + 1
+            if n_writes[op["k"]] > 1:
+                labels.add("overwrite")
+            if op["who"] == "same":
+                same_steps.append(op["k"])
+            if op["k"] is None:
+                labels.add("no-time-suffix")
+            continue
+        if op["op"] == "pvd":
+            same.write_pvd()
+            pvd_steps = list(same_steps)
+            labels.add("history-pvd")
+            continue
+        # ---- import: forget, read, compare with the reference model
+        for e, (ent, is_sd, dim) in enumerate(ents):
+            for j, key in enumerate(keys):
+                if _has(key, is_sd, dim):
+                    pp.set_solution_values(key["name"], np.full(key["nd"] * ent.num_cells, np.nan),
+                                           _data_of(mdg, ent, is_sd), time_step_index=0)
+        imp = same if op["who"] == "same" else new_exporter()
+        labels.add(f"history-import-{op['how']}")
+        labels.add("history-fresh-exporter" if op["who"] == "fresh" else "history-same-exporter")
+        names = [k["name"] for k in keys]
+        ikeys = list(names) if spec["ikeys"] == "list" else (None if spec["ikeys"] == "none" else keys[0]["name"])
+        imp_names = names if spec["ikeys"] != "str" else [keys[0]["name"]]
+        k, ret = op["k"], None
+        if op["how"] == "pvd":
+            k = max(pvd_steps)
+            ret = imp.import_from_pvd(folder / f"{fname}.pvd", keys=ikeys)
+        elif op["how"] == "mdgpvd":
+            ret = imp.import_from_pvd(folder / f"{fname}{_suffix(k)}.pvd", is_mdg_pvd=True, keys=ikeys)
+        else:
+            imp.import_state_from_vtu([f for f, _, _ in _files(spec, folder, k, ents)], ikeys)
+        if n_writes[k] > 1:
+            labels.add("overwrite-then-import")
+        if op["who"] == "same":
+            if k in seen_by_same and seen_by_same[k] < n_writes[k]:
+                labels.add("same-exporter-reimport")
+            seen_by_same[k] = n_writes[k]
+        what0 = (f"history op #{pos} ({op['how']} import of step {k} through "
+                 f"{'the same' if op['who'] == 'same' else 'a fresh'} exporter; step written {n_writes[k]} time(s))")
+        for e, (ent, is_sd, dim) in enumerate(ents):
+            for j, key in enumerate(keys):
+                if not _has(key, is_sd, dim):
+                    continue
+                got = np.asarray(pp.get_solution_values(key["name"], _data_of(mdg, ent, is_sd), time_step_index=0))
+                what = f"{what0}: {'subdomain' if is_sd else 'interface'} #{e} (dim {dim}), field {key['name']!r}"
+                if key["name"] in imp_names:
+                    exp_v = disk[k][(e, j)]
+                    require(got.shape == exp_v.shape, "history-restored-shape", f"{what}: {got.shape} vs {exp_v.shape}")
+                    if spec["binary"] or key["int"]:
+                        require_equal(got, exp_v, "history-restored-values",
+                                      what + " differs from the data written most recently under these file names")
+                    else:
+                        bad = ~(np.abs(got - exp_v) <= 2e-11 * np.abs(exp_v))
+                        require(not bad.any(), "history-restored-values-ascii",
+                                lambda: f"{what}: {got[bad][:4]} vs written {exp_v[bad][:4]}")
+                    nontrivial = nontrivial or ent.num_cells >= 2
+                else:
+                    require(np.all(np.isnan(got.astype(float))), "untouched-values-changed", what)
+        if ret is not None:
+            require(int(ret) == k, "returned-time-index", f"{what0}: import_from_pvd returned {ret!r}")
+    return nontrivial
+
+
 # ----------------------------------------------------------------------------- check
 def check(spec):
     import porepy as pp
@@ -407,6 +545,10 @@ def check(spec):
                 a = np.reshape(a, (keys[j]["nd"], ent.num_cells), order="F")
             out.append((ent, keys[j]["name"], a))
         return out
+
+    if mode == "history":
+        nontrivial = _history(pp, spec, mdg, ents, folder, labels, written, as_input)
+        return {"labels": sorted(labels), "nontrivial": bool(nontrivial)}
 
     # ---------------------------------------------------------------- export
     W = [written(step) for step in steps]
